@@ -178,6 +178,23 @@ theorem parseLines_is_dotenv_parse (look : Look) (ls : List Line) (hb : Line.bad
   rw [CV.Dotenv.parse_render look _ hwf]
   exact parseLines_eq_evalFrom look ls [] hb
 
+/-- **parseLines_is_dotenv_parse_text.**  The same for *every* tokenised file, rejected lines included: the text the
+    harness writes (`renderText`: `KEY=<template text>⏎`, `KEY⏎`, and `A B=1⏎` for a rejected line) is parsed by C18's
+    model exactly as `parseLines` parses the tokens — the first rejected line is C18's "key cannot contain a space"
+    (`key_with_space_err`) after the lines before it, whatever follows it. -/
+theorem parseLines_is_dotenv_parse_text (look : Look) (ls : List Line)
+    (hwf : CV.Dotenv.WF (toDotenvLines ls) = true) :
+    ofPOut (CV.Dotenv.parse (renderText ls) look) = parseLines look ls [] := by
+  by_cases hb : Line.bad ∈ ls
+  · obtain ⟨pre, post, e, hp⟩ := split_first_bad ls hb
+    subst e
+    apply parse_text_with_bad look pre post hp
+    rw [toDotenvLines_append] at hwf
+    simp only [CV.Dotenv.WF, List.all_append, Bool.and_eq_true] at hwf ⊢
+    exact hwf.1
+  · rw [renderText_good ls hb]
+    exact parseLines_is_dotenv_parse look ls hb hwf
+
 /-! ## labels -/
 
 /-- **labels_precedence.**  Labels are layered the same way: `labels` over the last label file that
@@ -640,6 +657,13 @@ example : Line.bad ∉ f1 ∧ CV.Dotenv.WF (toDotenvLines f1) = true ∧ CV.Dote
       ['A', '=', '2', '\n', 'D', '=', 'd', '\n', 'G', '=', '$', '{', 'A', '}', '\n'] := by
   refine ⟨?_, by decide, by decide, by decide⟩
   simp [f1]
+
+/-- hypotheses of `parseLines_is_dotenv_parse_text` with a rejected line in the middle: the text is `A=1⏎A B=1⏎D=d⏎` -/
+example : CV.Dotenv.WF (toDotenvLines [.assign ['A'] [.lit ['1']], .bad, .assign ['D'] [.lit ['d']]]) = true ∧
+    renderText [.assign ['A'] [.lit ['1']], .bad, .assign ['D'] [.lit ['d']]] =
+      ['A', '=', '1', '\n', 'A', ' ', 'B', '=', '1', '\n', 'D', '=', 'd', '\n'] ∧
+    parseLines (fun _ => none) [.assign ['A'] [.lit ['1']], .bad, .assign ['D'] [.lit ['d']]] [] = .error .parse := by
+  decide
 
 /-- hypotheses of `later_file_wins` hold: `f2` is the last file, gives `A` a value, `environment` does not mention `A` -/
 example : envContents fs0 s0.envFiles = [f1] ++ f2 :: [] ∧ lookup ['A'] s0.environment = none ∧
